@@ -2,4 +2,4 @@ from . import arrayhist
 
 
 def run(tier, seed):
-    return arrayhist.run_check('C03', tier, seed, 'data')
+    return arrayhist.run_check('C03', tier, seed, 'data+ctx')
